@@ -3,6 +3,7 @@
 package main
 
 import (
+	"sync/atomic"
 	"encoding/base64"
 	"encoding/json"
 	"fmt"
@@ -17,6 +18,8 @@ import (
 )
 
 // lifecycle: behaviours of the integration model Proxy.tla replayed step by step
+var vpReloadBroken int32
+
 func init() {
 	vpRegister("lifecycle", func(t *testing.T, env *vpEnv) {
 		var wg sync.WaitGroup
@@ -79,7 +82,8 @@ func init() {
 					return worlds[k], nil
 				}
 				curPw := map[key]int{}
-				reloadBroken := false
+				// (process-wide: a reload that was once seen not to happen is not waited for again by any worker - otherwise a broken
+				// watcher turns every password change of thousands of behaviours into a three-second wait)
 				sentinel := 0
 				// the htpasswd file of both proxies rewritten (rename into place) with the bcrypt entry of password version ver;
 				// a fresh sentinel user tells when the reload has completed
@@ -292,12 +296,12 @@ func init() {
 								obs["user"] = map[string]string{"hp": "hp"}[r.UpLast.Header.Get("X-Forwarded-User")]
 							}
 						case "pwchange":
-							if reloadBroken {
+							if atomic.LoadInt32(&vpReloadBroken) == 1 {
 								obs["reloaded"] = false // (already seen not to happen: no point in waiting again)
 							} else {
 								obs["reloaded"] = writeHt(pair, actual(vpI(st.Args, "to")))
 								if obs["reloaded"] == false {
-									reloadBroken = true
+									atomic.StoreInt32(&vpReloadBroken, 1)
 								}
 							}
 							curPw[k] = actual(vpI(st.Args, "to"))
